@@ -251,6 +251,8 @@ package input
 // reservedGetters is filled by reflection over *container.Container (outside the modelled subset).
 //@ func init#2
 //@   trusted "uses reflect to enumerate the method set of *container.Container (A10)"
+//@   loop 1
+//@     decreases r.NumMethod() - i
 
 // ---- C11 layer 1: the language of every grammar regex equals an independently written specification.
 // The specification side is written from docs/ and the property text in a different style
